@@ -124,13 +124,9 @@ impl<'a> MessageParser<'a> {
         let full_tag = format!("{}{}", base_tag, variant);
         let field_content = self.extract_field(&full_tag, false)?;
 
-        // Use parse_with_variant for enum fields (no option letter => None)
-        let variant_opt = if variant.is_empty() {
-            None
-        } else {
-            Some(variant.as_str())
-        };
-        T::parse_with_variant(&field_content, variant_opt, Some(base_tag)).map_err(|e| {
+        // Use parse_with_variant for enum fields; a tag without option letter is Some("")
+        // (None means "no tag information" and lets the enum guess from the content)
+        T::parse_with_variant(&field_content, Some(&variant), Some(base_tag)).map_err(|e| {
             ParseError::InvalidFieldFormat(Box::new(InvalidFieldFormatError {
                 field_tag: full_tag,
                 component_name: "field".to_string(),
@@ -151,12 +147,7 @@ impl<'a> MessageParser<'a> {
             Some(variant) => {
                 let full_tag = format!("{}{}", base_tag, variant);
                 if let Ok(content) = self.extract_field(&full_tag, true) {
-                    let variant_opt = if variant.is_empty() {
-                        None
-                    } else {
-                        Some(variant.as_str())
-                    };
-                    let parsed = T::parse_with_variant(&content, variant_opt, Some(base_tag))
+                    let parsed = T::parse_with_variant(&content, Some(&variant), Some(base_tag))
                         .map_err(|e| {
                             ParseError::InvalidFieldFormat(Box::new(InvalidFieldFormatError {
                                 field_tag: full_tag,
